@@ -304,13 +304,17 @@ def check_azimuth_labels(ctx, prog, rows, cl, rule="c20.azimuth"):
     (climate::ORIENTATIONS) a new table is generated from; otherwise a facade gets the irradiation of the mirrored one."""
     of = prog.method("types::common::Orientation", "convert::From", "from", inputs_contains="f32")
     chain, default = TB.threshold_chain(of)
-    ctx.require(len(chain) >= 8, "Orientation::from(f32): the chain of sector comparisons was not recognised (%d comparisons)" % len(chain))
-    for (op, c, r, lhs, ln) in chain:
+    tree = len(chain) < 8       # not a flat chain: the class of an azimuth is read by walking the decision tree (tables.classify_by_walk)
+    if tree:
+        ctx.require(TB.classify_by_walk(prog, of, Fraction(0)) is not None, "Orientation::from(f32): neither a flat chain of sector comparisons (%d comparisons) nor an evaluable decision tree" % len(chain))
+    for (op, c, r, lhs, ln) in ([] if tree else chain):
         l = strip(lhs)
         ctx.require(l[0] == "call" and short_callee(l[1]) == "normalize" and [strip(a)[1] for a in l[2][1:] if strip(a)[0] == "k"] == ["0.0", "360.0"],
                     "Orientation::from(f32) does not compare normalize(azimuth, 0, 360): the class of a table's gamma cannot be evaluated")
 
     def cls(az):
+        if tree:
+            return TB.classify_by_walk(prog, of, Fraction(az))
         return TB.classify_by_chain(chain, default, Fraction(az) % 360)
     # the embedded table
     per = {}
